@@ -29,7 +29,7 @@ for mid in sorted(os.listdir(os.path.join(ROOT, "seeded"))):
     checks = m.get("checks") or []
     if not checks:
         out.append("| %s | %s | %s | %s | - | **not caught (by design)** | see needs |" % (
-            mid, m["property"], m["change"], m["needs_to_manifest"]))
+            mid, m["property"], m["change"].replace("|", "/"), m["needs_to_manifest"].replace("|", "/")))
     for c in checks:
         r = rows.get((mid, c))
         res = r["result"] if r else "not run"
@@ -37,7 +37,7 @@ for mid in sorted(os.listdir(os.path.join(ROOT, "seeded"))):
             res += "; " + replays[(mid, c)]
         fv = (r["first_violation"] if r else "").replace("|", "/")
         fv = fv[fv.find("clause="):][:150] if "clause=" in fv else fv[:150]
-        out.append("| %s | %s | %s | %s | %s | %s | %s |" % (mid, m["property"], m["change"], m["needs_to_manifest"], c, res, fv))
+        out.append("| %s | %s | %s | %s | %s | %s | %s |" % (mid, m["property"], m["change"].replace("|", "/"), m["needs_to_manifest"].replace("|", "/"), c, res, fv))
 os.makedirs(os.path.join(ROOT, "selftest"), exist_ok=True)
 open(os.path.join(ROOT, "selftest", "REPORT.md"), "w").write("\n".join(out) + "\n")
 print("\n".join(out[-40:]))
